@@ -53,7 +53,7 @@ CHECKS = {
         "TLA+ reference semantics as oracle (TLC) for sync/async equivalence and gathered awaits + loop-liveness probe"),
 }
 ALSO = {
- "C02": "also engine E2 (clause C02.value-through-indexing: generated programs that use results and parameters through index paths, also across nested DAG calls)",
+ "C02": "also engines E2 (clause C02.value-through-indexing: generated programs that use results and parameters through index paths - int, string, list and tuple keys - also across nested DAG calls) and E4 (clause C02.restart-argument: a restart from a cache file called with other arguments)",
  "C03": "also engines E4 (entry counters over operation histories) and E3 (exactly the selection is entered; runnable debug nodes are taken along)",
  "C04": "also engine E2 (clause C04.thread: thread identity of every entered node of generated programs, nested DAGs included, against the resource the harness asked for)",
  "C06": "also engine E3 (clause C06.order: mc=1 execution orders of described, reloaded and composed DAGs against the documented compound priority)",
@@ -61,7 +61,7 @@ ALSO = {
  "C11": "also engine E3 (setup(...) with selections; build-time refusals)",
  "C13": "also engine E2 (clause C13.call-exec: debug call sites of generated programs, nested DAGs included, in plain calls with the flag on and off)",
  "C15": "also engines E2C (the original is called again after every composition) and E2 (the last of several calls on one object equals a fresh build's call)",
- "C17": "also engines E2 (sync / async equivalence of generated programs; coroutines created first, awaited in turn) and E1 (blocking wait on an async-thread node)",
+ "C17": "also engines E2 (sync / async equivalence of generated programs; coroutines created first, awaited in turn) E1 (blocking wait on an async-thread node) and E4 (clause C17.flavours-differ: the same history on a DAG and on the AsyncDAG built from the same function, compared operation by operation)",
  "C20": "also engine E2C (every composed DAG is called inside an outer DAG)",
 }
 checks = []
